@@ -76,6 +76,9 @@ def rstrip (l : Line) : Line := (l.reverse.dropWhile isWs).reverse
 /-- `line.rstrip().endswith("&")` -/
 def endsAmp (l : Line) : Bool := (rstrip l).getLast? == some 38
 
+/-- the line the repaired `process` actually wraps: without the white space after a final `&` -/
+def wrapped (l : Line) : Line := if lineType l != 3 && endsAmp l then rstrip l else l
+
 def processLineF (L : Nat) (l : Line) : Except Err (List Line) :=
   if l.length > L then
     let t := lineType l
@@ -99,7 +102,10 @@ def processF (L : Nat) : List Line → Except Err (List Line)
 `==`/`=>` in directives (repaired).  What is left: a statement/directive line that has to be split has no trailing
 commentary (known finding C18-trailing-comment-split) and does not end with white space (lines with blanks after a
 final `&` are repaired too: theorem `C18_fixed_trailing_blank_witness`; the general proof is not done). -/
+def noStrip (l : Line) : Bool := lineType l == 3 || !endsAmp l || lastNonWs l
+
 def safeLineF (st : St) (l : Line) : Bool :=
+  noStrip l &&
   match classify l with
   | 0 => true
   | 1 | 2 => (cutBang ((lstrip l).drop 5)).2.isNone && lastNonWs l
@@ -111,6 +117,6 @@ def SafeFileF (L : Nat) : St → List Line → Bool
   | st, l :: ls => (decide (l.length ≤ L) || safeLineF st l) && SafeFileF L (step st l).1 ls
 
 /-- side condition of the "never fails" clause for the repaired code: only directive lines can fail -/
-def BreakableF (L : Nat) (l : Line) : Bool := !isDirT (lineType l) || Breakable L l
+def BreakableF (L : Nat) (l : Line) : Bool := !isDirT (lineType l) || Breakable L (wrapped l)
 
 end C18
